@@ -34,6 +34,9 @@ func FromPrimary(p value.Primary) Val {
 	case *value.Integer:
 		return Val{'I', strconv.FormatInt(x.Raw(), 10)}
 	case *value.Float:
+		if math.Float64bits(x.Raw()) == 0x7ff8000005ca1ab1 {
+			return Val{'F', "POISON"} // sentinel written by the poison-on-discard hook
+		}
 		return Val{'F', FloatText(x.Raw())}
 	case *value.Boolean:
 		return Val{'B', strconv.FormatBool(x.Raw())}
@@ -176,7 +179,6 @@ func (s *Sess) Exec(sql string) (res ExecResult) {
 			res.Code = -1
 		}
 	}()
-	s.Out.Reset()
 	stmts, _, err := parser.Parse(sql, "", false, s.Tx.Flags.AnsiQuotes)
 	if err != nil {
 		res.Err = err
@@ -203,6 +205,7 @@ func (s *Sess) ExecStmts(stmts []parser.Statement) (res ExecResult) {
 			res.Code = -1
 		}
 	}()
+	s.Out.Reset()
 	flow, err := s.Proc.Execute(query.ContextForStoringResults(s.Ctx), stmts)
 	res.Flow = flow
 	res.Err = err
